@@ -157,6 +157,12 @@ class ImageFormation(HoloPyObject):
         coords = {
             point_or_flat: flattened_schema.coords[point_or_flat],
             vector: ['x', 'y', 'z']}
+        if point_or_flat == 'point':
+            # a list of detector points has no index: keep its position
+            # coordinates (x, y, z or r, theta, phi) on the result
+            coords.update({key: val for key, val
+                           in flattened_schema.coords.items()
+                           if key != point_or_flat and val.dims == ('point',)})
         scattered_field = xr.DataArray(
             scattered_field, dims=[point_or_flat, vector], coords=coords,
             attrs=schema.attrs)
